@@ -99,7 +99,7 @@ theorem PIo.poll (hi : InjOK inj) (h : PIo fl s) : ∃ fl', PIo fl' (poll inj s)
     have h6 := (h5.frame (core_flushSinks _)).checkFailures hi
     have h7 := h6.allEmpty
     split
-    · exact h7.cleanupContexts.cleanupLoggers
+    · exact h7.cleanupContexts.cleanupLoggers hi
     · exact h7
 
 theorem PIo.tick (h : PIo fl s) (dt : Nat) : PIo fl { s with now := s.now + dt } := PI.tick h dt
@@ -113,7 +113,7 @@ theorem PIo.exitLoop (hi : InjOK inj) (tick fuel : Nat) : ∀ fl s, PIo fl s →
     simp only
     have h1 := h.allEmpty
     split
-    · exact ⟨fl, ((h1.checkFailures hi).frame (core_flushSinks _)).cleanupContexts.cleanupLoggers⟩
+    · exact ⟨fl, ((h1.checkFailures hi).frame (core_flushSinks _)).cleanupContexts.cleanupLoggers hi⟩
     · have h2 := h1.tick tick
       obtain ⟨fl', C', hp⟩ := h2.populate hi
       rcases hpop : Backend.populate inj { (Backend.allEmpty s).1 with now := (Backend.allEmpty s).1.now + tick } with ⟨s1, count⟩
